@@ -570,6 +570,22 @@ func (ex *Exec) ensureInit(pkg *ssa.Package) {
 	if init := pkg.Func("init"); init != nil && init.Blocks != nil {
 		ex.callFn(nil, init, nil, nil)
 	}
+	// packages imported for their side effects only (`import _ "..."`) are never reached by a call: run their
+	// initialisers together with the importer's
+	for _, path := range sideEffectImports[pkg.Pkg.Path()] {
+		dep := ex.prog.ImportedPackage(path)
+		if os.Getenv("GOSYM_TRACE") != "" {
+			fmt.Fprintf(os.Stderr, "side-effect import %s of %s: found=%v\n", path, pkg.Pkg.Path(), dep != nil)
+		}
+		if dep != nil {
+			dep.Build()
+			ex.ensureInit(dep)
+		}
+	}
+}
+
+var sideEffectImports = map[string][]string{
+	"github.com/ryogrid/SamehadaDB/lib/parser": {"github.com/pingcap/tidb/types/parser_driver"},
 }
 
 func (ex *Exec) global(g *ssa.Global) *Value {
